@@ -205,6 +205,14 @@ class SideChannel:
         self.table = {}
         builtins.__vtrace__ = self._trace
         builtins.__vget__ = self._get
+        builtins.__vhint__ = self._hint
+
+    @staticmethod
+    def _hint():
+        from . import simsched
+        sch = simsched.CURRENT[0]
+        if sch is not None and sch.me() is not None:
+            sch.hint()
 
     def _trace(self, *a):
         self.events.append(list(a))
